@@ -2,7 +2,7 @@
 from props import stackcorr
 
 MODEL_DEPS = ['CheckLib', 'NameLevel']
-KERNELS = ('AntiSet', 'Graph')
+KERNELS = ('AntiSet', 'Graph', 'connect_bags', 'normalize_bag', 'EdgesBag', 'detect_optionals', 'GraphCompiler', 'ReversibleContainer')
 TRUSTED = ['Coq 8.16.1 kernel; vm_compute in case shards and Examples',
            'tools/translate.py: the AntiSet operators (finite / co-finite name sets), Graph.__init__ signature rule',
            'hand-written Model/NameLevel.v (normalize_inherit, normalize_bag rule 3, connect_bags, detect_optionals, _validate_optionals at name level), '
